@@ -172,6 +172,30 @@ def run_then_genuine(out, rnd, junk):
                      ["%d genuine broadcasts delivered afterwards" % len(caps)] * len(keep), describe, sample=describe, classify=lambda c, i: "then-genuine/" + i[:2])
 
 
+def run_split_and_ports(out, rnd):
+    """(a) a genuine broadcast cut in two datagrams: each piece is a datagram to be ignored, and stays so when the other follows it;
+    (b) ONE bridge on two ports: a genuine broadcast on one port, then a frame of the same device id with an unknown model code on the
+    other (and the other way round): the warning comes whatever the other port has just seen"""
+    caps = [c for c, m in zip(c05.captures(), lib.run_model([lib.req("bcast", c) for c in c05.captures()])) if "|" in m]
+    cases = []; io = []; ex = []
+    async def go():
+        for c in caps[:4]:
+            for k in (2, 40, 100, len(c) - 4, len(c) - 1):
+                log, nh, nw, complete = await world.feed_bridge(1, [(0, c[:k]), (0, c[k:])], (), c05.show, sentinel, serial=True)
+                cases.append({"d": c[:k].hex() + "|" + c[k:].hex()}); ex.append("0 delivered, 0 unknown-device warnings, 0 escaped exceptions")
+                io.append("%d delivered, %d unknown-device warnings, %d escaped exceptions" % (len(log), nw, nh) if complete else "barrier-lost")
+        for c in caps[:6]:
+            u = bytearray(c); u[74:76] = b"\xee\x01"; u = bytes(u)
+            for first, second in ((c, u), (u, c), (u, u)):
+                log, nh, nw, complete = await world.feed_bridge(2, [(0, first), (1, second)], (), c05.show, sentinel, serial=True)
+                k = sum(1 for d in (first, second) if d is c); cases.append({"d": first.hex() + "|" + second.hex()})
+                ex.append("%d delivered, %d unknown-device warnings, 0 escaped exceptions" % (k, 2 - k))
+                io.append("%d delivered, %d unknown-device warnings, %d escaped exceptions" % (len(log), nw, nh) if complete else "barrier-lost")
+    asyncio.run(go())
+    lib.differential(out, "split-broadcasts-and-one-device-on-two-ports-of-one-bridge", cases, io, None, ex,
+                     lambda c: "one bridge, datagrams of %s bytes" % [len(x) // 2 for x in c["d"].split("|")], sample=lambda c: c["d"][:60])
+
+
 def run_flood(out, rnd, tier):
     """ONE bridge, a few hundred datagrams that are all to be ignored (foreign traffic on a shared port), then a genuine broadcast: all
     of it ignored quietly - no warning of any kind, no error - and the broadcast delivered"""
@@ -205,6 +229,7 @@ def run(tier, rnd, out):
     run_then_genuine(out, rnd, [b"", b"\0", b"\xfe\xf0", b"\xfe\xf0" + bytes(163), world.rand_bytes(rnd, 165), world.rand_bytes(rnd, 1400)] + rnd.sample(cs, 10 if tier == "quick" else 200))
     run_pairs(out, rnd)
     run_flood(out, rnd, tier)
+    run_split_and_ports(out, rnd)
     out.exhaustive = tier == "thorough"
     out.notes.append("thorough enumerates all 65536 model codes on each accepted length")
 
